@@ -26,6 +26,19 @@ structure MatcherLaws (m : Matcher) (E : Eco) : Prop where
   exists_iff   : ∀ s vs, E.wf s = true →
       (m.exists_ s vs = true ↔ (E.alwaysPresent s = true ∨ ∃ v ∈ vs, E.inside s v = true))
 
+/-- the same laws at ONE spec text (what C01's decision theorem actually uses: the resolved spec) -/
+structure MatcherLawsAt (m : Matcher) (E : Eco) (s : Text) : Prop where
+  invalid_iff  : ∀ l, m.cmp s l = .invalid ↔ (E.wf s = false ∨ E.wfV l = false)
+  latest_iff   : ∀ l, m.cmp s l = .latest ↔
+      (E.wf s = true ∧ E.wfV l = true ∧ (E.inside s l = true ∨ E.unanchored s = true))
+  outdated_iff : ∀ l, m.cmp s l = .outdated ↔
+      (E.wf s = true ∧ E.wfV l = true ∧ E.inside s l = false ∧ E.unanchored s = false ∧ E.anchorBelow s l = true)
+  exists_iff   : ∀ vs, E.wf s = true →
+      (m.exists_ s vs = true ↔ (E.alwaysPresent s = true ∨ ∃ v ∈ vs, E.inside s v = true))
+
+theorem MatcherLaws.at {m : Matcher} {E : Eco} (h : MatcherLaws m E) (s : Text) : MatcherLawsAt m E s :=
+  ⟨h.invalid_iff s, h.latest_iff s, h.outdated_iff s, h.exists_iff s⟩
+
 namespace Spec.Decision
 
 /-- well-known dist-tag names (the property's "such as latest/next/beta"; the full list is the code's) -/
